@@ -24,6 +24,8 @@ type checkerSet struct {
 	// C07: per-transaction result digests and per-block app hashes of replica 0
 	txHashes  []string
 	appHashes []string
+	dbDump    [][2][]byte
+	dbDumpAt  int
 }
 
 func newChecker(prop string, w *World) *checkerSet {
@@ -85,6 +87,11 @@ func (cs *checkerSet) Quiescent(w *World, s *Snap, l *Ledger, why string) *core.
 func (cs *checkerSet) blockEnd(w *World, hashes [][]byte) *core.Violation {
 	if cs.prop == "C07" {
 		cs.appHashes = append(cs.appHashes, hex.EncodeToString(hashes[0]))
+		// sometimes remember the node's disk at this block boundary: the cross-process check may then
+		// restart a fresh process from it instead of from genesis
+		if cs.dbDump == nil && cs.r.Bool(6, "c07.dumpdisk") {
+			cs.dumpDisk(w)
+		}
 	}
 	for i := 1; i < len(hashes); i++ {
 		if !bytes.Equal(hashes[0], hashes[i]) {
